@@ -136,6 +136,17 @@ example :
   decide
 
 open Witness in
+/-- non-vacuity of `settings_survive` / `history_independent` with flags and process scans: the user sets
+    SCAN_FLAGS_PROCESS_MEMORY, a process scan (here: of memory containing the executable) and a failed attach follow;
+    the flag is still set, and clearing it later is what `settingsAfter` says. -/
+example :
+    let pm : Settings := { set with processMemory := true }
+    (runH P .fixed (HSt.init set w0) [.config pm, .proc (some exe), .proc none, .start text]).sc.set = pm ∧
+    (runH P .fixed (HSt.init set w0) [.config pm, .proc (some exe), .config set, .start exe]).sc.set = set ∧
+    (tracesH P .fixed (HSt.init set w0) [.config pm, .proc (some exe), .proc none]).getLast? = some (some ([], .couldNotAttach)) := by
+  decide
+
+open Witness in
 /-- non-vacuity of `scan_restores_clean` / `history_invariant`: a history whose scans end in different
     ways; the suspended one really holds state -/
 example :
